@@ -269,6 +269,8 @@ def run(ctx):
     layouts(ctx, K, rng, nprng, quick)
     objects_round3(ctx, RecurrencePlot, rng, nprng, quick)
     bootstrap(ctx, K, RecurrencePlot, rng, nprng, quick)
+    doubles(ctx, K, RecurrencePlot, rng, nprng, quick)
+    criteria_and_subclasses(ctx, rng, nprng, quick)
     scalar_correspondence(ctx)
 
     # ---------------- sequential vs matrix on generic float data ----------
@@ -674,6 +676,323 @@ def given_dist(ctx, rp, N, rng, replay):
                      f"gives {e}", dict(replay, l_min=lmin, resampled_dist=h.tolist()))
 
 
+# --------------------------------------------------------------------------
+# round 4: doubles (inf, nan, differences that are rounded)
+# --------------------------------------------------------------------------
+
+def enc_x(x):
+    x = float(x)
+    if x != x:
+        return "nan"
+    if x in (float("inf"), float("-inf")):
+        return "inf" if x > 0 else "-inf"
+    return enc_q(frac(x))
+
+
+def enc_xmat(E):
+    return ";".join(",".join(enc_x(x) for x in row) for row in E) or "-"
+
+
+def float_matrix(E, eps):
+    """independent of the model: the stated predicate evaluated in Python floats (IEEE doubles):
+    running maximum of |a - b| that skips NaN differences, strict comparison"""
+    n = len(E)
+    R = [[0] * n for _ in range(n)]
+    for a in range(n):
+        for b in range(n):
+            d = 0.0
+            for x, y in zip(E[a], E[b]):
+                with np.errstate(invalid="ignore"):
+                    t = abs(float(np.float64(x) - np.float64(y)))
+                if t > d:
+                    d = t
+            R[a][b] = int(d < eps)
+    return R
+
+
+def double_embedding(rng, n, dim):
+    """doubles whose differences are NOT all representable (exponents far apart), a few infinities
+    and NaNs; returns the array and a list of thresholds at / next to its distances"""
+    kind = rng.choice(["gap", "gap", "tenths", "f32gap"])
+    E = np.zeros((n, dim))
+    for a in range(n):
+        for l in range(dim):
+            if kind == "tenths":
+                E[a, l] = rng.randrange(0, 12) / 10
+            elif kind == "f32gap":
+                base = rng.choice([0.0, 1.0, 3.0, 0.5])
+                tiny = rng.randrange(0, 5) * 2.0 ** -rng.choice([30, 41, 52, 60])
+                E[a, l] = float(np.float32(base)) + float(np.float32(tiny)) \
+                    if rng.random() < 0.5 else float(np.float32(rng.choice([base, tiny])))
+            else:
+                base = rng.choice([0.0, 1.0, 1.0, 3.0, 0.5, 2.0 ** 40])
+                tiny = rng.randrange(0, 7) * 2.0 ** -rng.choice([30, 52, 53, 54, 60, 70])
+                E[a, l] = rng.choice([base, tiny, base + 2.0 ** -20, -base])
+    special = rng.choice(["none", "none", "inf", "inf", "nan", "both"])
+    for a in range(n):
+        if special in ("inf", "both") and rng.random() < 0.3:
+            E[a, rng.randrange(dim)] = rng.choice([np.inf, np.inf, -np.inf])
+        if special in ("nan", "both") and rng.random() < 0.2:
+            E[a, rng.randrange(dim)] = np.nan
+    cands = [1.0, 0.5, 3.0, 0.1, 0.30000000000000004, float(np.nextafter(1.0, 0)),
+             float(np.nextafter(1.0, 2)), 2.0 ** 40, np.inf, np.inf, 0.0, -1.0]
+    near = []
+    for l in range(dim):
+        col = [float(x) for x in E[:, l] if np.isfinite(x)]
+        if len(col) >= 2:
+            for _ in range(3):
+                x, y = rng.choice(col), rng.choice(col)
+                d = abs(x - y)          # the rounded distance: a threshold exactly there is the
+                near += [d, d, float(np.nextafter(d, np.inf))]     # case rounding can decide
+    if near and rng.random() < 0.5:
+        cands = near
+    if rng.random() < 0.05:
+        cands = [float("nan")]
+    return E, kind, special, float(rng.choice(cands))
+
+
+def doubles(ctx, K, RecurrencePlot, rng, nprng, quick):
+    """(a) the four sequential kernels on doubles with inf / nan samples, inf / nan thresholds and
+    differences that binary64 rounds, against the SAME generated kernels instantiated at
+    `xOps rnd64` and against the predicate evaluated in Python floats; (b) object level: series
+    with infinite samples in both storage modes (matrix of `set_fixed_threshold` = model
+    `fixedThresholdX`, histograms = run-length counts of the implementation's own matrix)."""
+    reqs, impl = [], []
+    for c in range(120 if quick else 1200):
+        n = rng.choice([1, 2, 3, 3, 4, 5, 6, 8, 11] + ([] if quick else [17, 30]))
+        dim = rng.choice([1, 1, 2, 3])
+        E, kind, special, eps = double_embedding(rng, n, dim)
+        M = np.isnan(E).sum(axis=1) != 0
+        Rex = float_matrix(E.tolist(), eps)
+        if np.isfinite(E).all() and np.isfinite(eps):
+            # how often does binary64 rounding of |a - b| decide a cell differently from exact
+            # arithmetic (theorem round_subset: only ever by dropping a recurrence)
+            Rq = sup_matrix(E.tolist(), eps)
+            if Rq != Rex:
+                ctx.count("doubles:rounding-changes-the-matrix")
+                if any(x > y for rx, ry in zip(Rex, Rq) for x, y in zip(rx, ry)):
+                    ctx.fail({"kind": "kernel-doubles", "what": "rounding invented a recurrence"},
+                             "a pair is recurrent in doubles but not in exact arithmetic",
+                             {"E": enc_xmat(E.tolist()), "eps": repr(eps)})
+        for name, fn, mv in (("xvertline_seq", K._vertline_dist_sequential, False),
+                             ("xdiagline_seq", K._diagline_dist_sequential, False),
+                             ("xvertline_seq_mv", K._vertline_dist_sequential_missingvalues, True),
+                             ("xdiagline_seq_mv", K._diagline_dist_sequential_missingvalues, True)):
+            hist = np.zeros(n, dtype=np.int32)
+            Ec = np.ascontiguousarray(E)
+            if rng.random() < 0.3:
+                Ec = np.asfortranarray(Ec)
+            try:
+                if mv:
+                    fn(n, hist, M.astype(bool), Ec, float(eps), dim)
+                else:
+                    fn(n, hist, Ec, float(eps), dim)
+                got = enc_vec(hist)
+            except Exception as e:  # noqa
+                got = "raise:" + type(e).__name__
+            req = f"{name} b64 {n} {dim} {enc_xmat(E.tolist())} {enc_x(eps)}"
+            if mv:
+                req += " " + enc_vec(M)
+            reqs.append(req)
+            impl.append(got)
+            ctx.count(f"kernel:{name}")
+            ctx.count(f"doubles:data={kind}")
+            ctx.count(f"doubles:special={special}")
+            ctx.count("doubles:eps=" + ("inf" if eps == np.inf else "nan" if eps != eps else "finite"))
+            ctx.case((name, n, dim, E.tobytes().hex(), repr(eps)), n >= 2,
+                     {"kernel": name, "n": n, "E": enc_xmat(E.tolist()), "eps": repr(eps)}
+                     if n <= 3 else None)
+            if mv:
+                cells = mv_cells_rows(Rex, M) if "vert" in name else mv_cells_diags(Rex, M)
+                exp = oracle_lines_mv(cells, n)
+            else:
+                exp = oracle_hist(rows(Rex, 1) if "vert" in name else lower_diags(Rex), n)
+            if got != enc_vec(exp):
+                ctx.fail({"kind": "kernel-doubles", "kernel": name[1:]},
+                         f"{name[1:]} kernel on doubles (inf / nan / rounded differences) differs from "
+                         "the run-length count of the predicate evaluated in IEEE doubles",
+                         {"kernel": name[1:], "n": n, "dim": dim, "E": enc_xmat(E.tolist()),
+                          "eps": repr(eps), "M": M.tolist(), "expected": exp, "observed": got})
+    ctx.correspond("generated kernels at xOps(binary64) == compiled sequential kernels on doubles "
+                   "with inf / nan / rounded differences", reqs, impl)
+
+    # (b) object level: infinite samples
+    reqs, impl = [], []
+    for c in range(40 if quick else 400):
+        n = rng.randrange(2, 12 if quick else 30)
+        den = rng.choice([2, 4])
+        dimts = rng.choice([1, 1, 2])
+        ts = np.array([[rng.randrange(0, 3 * den) / den for _ in range(dimts)] for _ in range(n)])
+        kw = {}
+        if dimts == 1 and n >= 6 and rng.random() < 0.3:
+            kw = {"dim": 2, "tau": rng.choice([1, 2])}
+        for a in range(n):
+            r = rng.random()
+            if r < 0.25:
+                ts[a, rng.randrange(dimts)] = rng.choice([np.inf, np.inf, -np.inf])
+            elif r < 0.35:
+                ts[a, rng.randrange(dimts)] = np.nan
+        mv = bool(np.isnan(ts).any()) and rng.random() < 0.8
+        thr = rng.choice([1 / den, 2 / den, 3 / den, np.inf])
+        dt = rng.choice([np.float32, np.float64])
+        replay = {"time_series": [[repr(float(x)) for x in r] for r in ts], "dtype": np.dtype(dt).name,
+                  "threshold": repr(float(thr)), "missing_values": mv, "kwargs": kw}
+        res = {}
+        try:
+            for sparse in (False, True):
+                rp = RecurrencePlot(ts.astype(dt), metric="supremum", threshold=thr,
+                                    missing_values=mv, sparse_rqa=sparse, silence_level=3, **kw)
+                res[sparse] = (rp, list(map(int, rp.diagline_dist())), list(map(int, rp.vertline_dist())))
+        except Exception as e:  # noqa
+            ctx.fail({"kind": "object-inf", "error": type(e).__name__},
+                     f"RecurrencePlot with infinite samples raised {type(e).__name__}: {e}", replay)
+            continue
+        rp, d, v = res[False]
+        N = rp.N
+        ctx.count("object4:inf-samples")
+        ctx.count(f"object4:threshold={'inf' if thr == np.inf else 'finite'}")
+        ctx.case(("obj4", ts.tobytes().hex(), float(thr), mv, str(kw), np.dtype(dt).name), N >= 2)
+        R = np.array(rp.recurrence_matrix())
+        emb = np.asarray(rp.embedding, dtype=np.float64)
+        Mk = np.isnan(emb).sum(axis=1) != 0
+        reqs.append(f"xmatrix b64 {emb.shape[1]} {int(mv)} {enc_xmat(emb.tolist())} {enc_x(thr)}")
+        impl.append(f"{enc_mat(R)} {enc_vec(Mk)}")
+        if mv:
+            expv = oracle_lines_mv(mv_cells_rows(R, Mk), N)
+            expd = [2 * x for x in oracle_lines_mv(mv_cells_diags(R, Mk), N)]
+        else:
+            expv = oracle_hist(rows(R, 1), N)
+            expd = [2 * x for x in oracle_hist(lower_diags(R), N)]
+        Rf = np.array(float_matrix(emb.tolist(), float(thr)))
+        if mv:
+            Rf[Mk, :] = 0
+            Rf[:, Mk] = 0
+        if not np.array_equal(R, Rf):
+            ctx.fail({"kind": "object-inf", "method": "recurrence_matrix"},
+                     "recurrence matrix of a series with infinite samples differs from the thresholded "
+                     "supremum distances", dict(replay, expected=enc_mat(Rf), observed=enc_mat(R)))
+        for sparse in (False, True):
+            _, dd, vv = res[sparse]
+            for nm, got, exp in (("diagline_dist", dd, expd), ("vertline_dist", vv, expv)):
+                if got != exp:
+                    ctx.fail({"kind": "object-inf", "method": nm, "sparse_rqa": sparse,
+                              "missing_values": mv},
+                             f"{nm}(sparse_rqa={sparse}, missing_values={mv}) on a series with infinite "
+                             "samples differs from the run-length count of the recurrence matrix",
+                             dict(replay, expected=exp, observed=got))
+    ctx.correspond("model fixedThresholdX(binary64) == RecurrencePlot.recurrence_matrix() on series "
+                   "with infinite / NaN samples", reqs, impl)
+
+
+def criteria_and_subclasses(ctx, rng, nprng, quick):
+    """round 4: every way of reaching a recurrence matrix, not only the fixed threshold: fixed
+    (local) recurrence rate -- the local one gives ASYMMETRIC matrices --, adaptive neighbourhood
+    size, threshold in units of the standard deviation, all three metrics, and the subclasses that
+    inherit the RQA methods (RecurrenceNetwork, JointRecurrencePlot, JointRecurrenceNetwork, incl.
+    a lag).  Oracle: run-length count of the object's own `recurrence_matrix()` over ALL diagonals
+    off the main one (both triangles), rows, white rows; accounting; the stated scalar formulas."""
+    from pyunicorn.timeseries import (RecurrencePlot, RecurrenceNetwork, JointRecurrencePlot,
+                                      JointRecurrenceNetwork)
+    dreqs, dimpl = [], []
+    for c in range(60 if quick else 500):
+        n = rng.randrange(3, 14 if quick else 36)
+        den = rng.choice([2, 4, 8])
+        dim = rng.choice([1, 1, 2])
+        ts = np.array([[rng.randrange(0, 4 * den) / den for _ in range(dim)] for _ in range(n)])
+        ts += nprng.rand(n, dim) * 1e-3            # break ties of the rate criteria
+        metric = rng.choice(["supremum", "supremum", "manhattan", "euclidean"])
+        crit = rng.choice(["local_recurrence_rate", "local_recurrence_rate", "recurrence_rate",
+                           "adaptive_neighborhood_size", "threshold_std", "threshold"])
+        val = {"local_recurrence_rate": rng.choice([0.2, 0.3, 0.5, 0.8]),
+               "recurrence_rate": rng.choice([0.1, 0.3, 0.6]),
+               "adaptive_neighborhood_size": rng.randrange(1, max(2, n // 2)),
+               "threshold_std": rng.choice([0.3, 0.8, 1.5]),
+               "threshold": rng.choice([1, 2, 3]) / den}[crit]
+        cls = rng.choice(["RecurrencePlot", "RecurrencePlot", "RecurrenceNetwork",
+                          "JointRecurrencePlot", "JointRecurrenceNetwork"])
+        mv = False
+        if crit == "threshold" and cls in ("RecurrencePlot", "RecurrenceNetwork") and rng.random() < 0.4:
+            mv = True
+            for a in range(n):
+                if rng.random() < 0.2:
+                    ts[a, rng.randrange(dim)] = np.nan
+        replay = {"class": cls, "time_series": ts.tolist(), "metric": metric, crit: val,
+                  "missing_values": mv}
+        try:
+            if cls.startswith("Joint"):
+                if crit not in ("threshold", "threshold_std", "recurrence_rate"):
+                    crit, val = "recurrence_rate", 0.4
+                ts2 = np.array([[rng.randrange(0, 4 * den) / den for _ in range(dim)]
+                                for _ in range(n)]) + nprng.rand(n, dim) * 1e-3
+                lag = rng.choice([0, 0, 1, 2]) if n > 5 else 0
+                replay.update({"time_series_y": ts2.tolist(), "lag": lag, crit: val})
+                obj = {"JointRecurrencePlot": JointRecurrencePlot,
+                       "JointRecurrenceNetwork": JointRecurrenceNetwork}[cls](
+                    ts, ts2, metric=(metric, metric), lag=lag, silence_level=3, **{crit: (val, val)})
+            else:
+                obj = {"RecurrencePlot": RecurrencePlot, "RecurrenceNetwork": RecurrenceNetwork}[cls](
+                    ts, metric=metric, missing_values=mv, silence_level=3, **{crit: val})
+            R = np.array(obj.recurrence_matrix())
+            d = list(map(int, obj.diagline_dist()))
+            v = list(map(int, obj.vertline_dist()))
+            w = list(map(int, obj.white_vertline_dist()))
+        except Exception as e:  # noqa
+            ctx.fail({"kind": "object-criteria", "class": cls, "criterion": crit,
+                      "error": type(e).__name__},
+                     f"{cls}({crit}={val}) line histograms raised {type(e).__name__}: {e}", replay)
+            continue
+        N = R.shape[0]
+        if cls == "RecurrenceNetwork" and mv and int(obj.N) != N:
+            # known finding C08-recurrence-network-missing-values-N (Network.__init__ overwrites N)
+            ctx.count("object5:RecurrenceNetwork-with-NaN-samples")
+            if len(d) != N or len(v) != N or len(w) != N:
+                ctx.fail({"kind": "object-criteria", "class": "RecurrenceNetwork",
+                          "missing_values": True, "input_class": "series-with-NaN-samples",
+                          "what": "histogram length is the number of nodes, not of samples"},
+                         f"RecurrenceNetwork(missing_values=True) on a series with NaN samples: line "
+                         f"histograms have length {len(d)} (number of nodes) for a {N}x{N} recurrence "
+                         "matrix", dict(replay, N_network=int(obj.N), N_plot=N))
+            continue
+        sym = bool(np.array_equal(R, R.T))
+        ctx.count(f"object5:{cls}")
+        ctx.count(f"object5:criterion={crit}")
+        ctx.count(f"object5:metric={metric}")
+        ctx.count(f"object5:{'symmetric' if sym else 'ASYMMETRIC'}-matrix")
+        ctx.case(("obj5", cls, crit, repr(val), metric, ts.tobytes().hex(), mv), N >= 2)
+        if mv:
+            Mk = np.isnan(np.asarray(obj.embedding)).sum(axis=1) != 0
+            expv = oracle_lines_mv(mv_cells_rows(R, Mk), N)
+            expd = [a + b for a, b in zip(oracle_lines_mv(mv_cells_diags(R, Mk), N),
+                                          oracle_lines_mv(mv_cells_diags(R.T, Mk), N))]
+        else:
+            expv = oracle_hist(rows(R, 1), N)
+            expd = oracle_hist(lower_diags(R) + lower_diags(R.T), N)
+        expw = oracle_hist(rows(R, 0), N)
+        if not mv:
+            dreqs.append(f"diagdist {N} {enc_mat(R)}")
+            dimpl.append(enc_vec(d))
+        for nm, got, exp in (("diagline_dist", d, expd), ("vertline_dist", v, expv),
+                             ("white_vertline_dist", w, expw)):
+            if got != exp:
+                ctx.fail({"kind": "object-criteria", "method": nm, "class": cls, "criterion": crit,
+                          "symmetric": sym},
+                         f"{cls}({crit}).{nm}() differs from the run-length count of its "
+                         f"{'symmetric' if sym else 'asymmetric'} recurrence matrix",
+                         dict(replay, expected=exp, observed=got, R=enc_mat(R)))
+        ar = np.arange(1, N + 1)
+        if not mv and (int(ar @ np.array(v)) != int(R.sum()) or
+                       int(ar @ np.array(d)) != int(R.sum() - np.trace(R)) or
+                       int(ar @ np.array(w)) != int(N * N - R.sum())):
+            ctx.fail({"kind": "object-criteria", "method": "accounting", "class": cls,
+                      "criterion": crit},
+                     "histograms do not account for every point exactly once", replay)
+        for lmin in {1, 2, 3}:
+            check_scalars(ctx, obj, N, expd, expv, expw, lmin, ts)
+    ctx.correspond("model diaglineDist (kernel + Python layer of diagline_dist) == diagline_dist() of "
+                   "objects built with every recurrence criterion (symmetric and asymmetric matrices)",
+                   dreqs, dimpl)
+
+
 class DrawProxy:
     """stands in for the module global `random` of the compiled numerics module: feeds a prepared
     stream of values of random.random()"""
@@ -751,6 +1070,38 @@ def bootstrap(ctx, K, RecurrencePlot, rng, nprng, quick):
             ctx.count(f"bootstrap:{which}:fed")
     ctx.correspond("bootstrap loop regenerated from numerics.pyx + resample model == "
                    "resample_*line_dist on fed draw streams", reqs, impl)
+    # (c) round 4 -- the EXPECTED histogram, exactly: the public static method
+    # `rejection_sampling(dist, M)` fed every pair of a uniform grid of draws once (shuffled;
+    # N a power of two so that u1 * N is exact): theorem bootstrap_accept_region says class x accepts
+    # exactly the pairs of the rectangle [x/N, (x+1)/N) x [0, dist[x]/S), i.e. r * t * dist[x] of them
+    for c in range(12 if quick else 120):
+        N = rng.choice([1, 2, 4, 8])
+        dist = [rng.choice([0, 1, 2, 3, 5]) for _ in range(N)]
+        if sum(dist) == 0:
+            dist[rng.randrange(N)] = rng.choice([1, 4])
+        S, r, t = sum(dist), rng.choice([1, 2, 4]), rng.choice([1, 2])
+        grid = [(Fraction(a, N * r), Fraction(b, S * t)) for a in range(N * r) for b in range(S * t)]
+        rng.shuffle(grid)
+        M = r * t * S
+        proxy = DrawProxy([u for pr in grid for u in pr])
+        old = K.random
+        replay = {"method": "rejection_sampling", "dist": dist, "M": M, "grid": [N * r, S * t]}
+        try:
+            K.random = proxy
+            got = [int(x) for x in RecurrencePlot.rejection_sampling(np.array(dist, dtype=np.int32), M)]
+        except Exception as e:  # noqa
+            ctx.fail({"kind": "bootstrap", "method": "rejection_sampling", "error": type(e).__name__},
+                     f"rejection_sampling on a uniform grid of draws raised {type(e).__name__}: {e} "
+                     "(fewer acceptances than the original distribution implies)", replay)
+            continue
+        finally:
+            K.random = old
+        ctx.count("bootstrap:uniform-grid")
+        ctx.case(("boot-grid", tuple(dist), r, t), N >= 2)
+        if got != [r * t * h for h in dist]:
+            ctx.fail({"kind": "bootstrap", "method": "rejection_sampling", "what": "expected histogram"},
+                     "rejection_sampling over a uniform grid of draws does not reproduce the original "
+                     "distribution", dict(replay, expected=[r * t * h for h in dist], observed=got))
 
 
 def scalar_correspondence(ctx):
@@ -848,6 +1199,17 @@ def check_scalars(ctx, rp, n, d, v, w, lmin, ts):
             ctx.fail({"kind": "scalar", "method": nm},
                      f"{nm}({lmin}) = {got}, stated function of the histogram gives {e}",
                      {"time_series": ts.tolist(), "l_min": lmin, "expected": e, "observed": got})
+        if nm.endswith("entropy"):
+            # theorem lineEntropy_range on the implementation's value, computed without numpy.log
+            import math
+            hh = [x for x in {"diag_entropy": d, "vert_entropy": v, "white_vert_entropy": w}[nm][lmin - 1:]
+                  if x]
+            hi = (math.log(len(hh)) + eps / (sum(hh) + eps)) if hh else 0.0
+            ctx.count("scalar:entropy-range")
+            if not (-1e-12 <= got <= hi + 1e-12):
+                ctx.fail({"kind": "scalar", "method": nm, "what": "range"},
+                         f"{nm}({lmin}) = {got} outside [0, log k + eps/(n+eps)] = [0, {hi}]",
+                         {"time_series": ts.tolist(), "l_min": lmin, "observed": got, "bound": hi})
     if lmin == 1:
         for nm, e in (("max_diaglength", mx(d)), ("max_vertlength", mx(v)),
                       ("max_white_vertlength", mx(w))):
